@@ -180,7 +180,9 @@ func loadProgram(p *PropCfg) (*ssa.Program, error) {
 		Overlay:    ov,
 		Env:        append(os.Environ(), "GOFLAGS=-mod=mod", "GOPROXY=off", "GOSUMDB=off", "GOTOOLCHAIN=local"),
 	}
+	restore := guardModFiles()
 	pkgs, err := packages.Load(cfg, pats...)
+	restore()
 	if err != nil {
 		return nil, err
 	}
@@ -581,7 +583,9 @@ func nativeReplay(p *PropCfg, pkg string, cases []replayCase) ([]nativeResult, s
 	cmd.Dir = repoDir
 	cmd.Env = append(os.Environ(), "VERIF_REPLAY="+caseFile, "GOFLAGS=-mod=mod", "GOPROXY=off", "GOSUMDB=off", "GOTOOLCHAIN=local",
 		"GOCACHE="+goCache())
+	restore := guardModFiles()
 	out, runErr := cmd.CombinedOutput()
+	restore()
 	var results []nativeResult
 	for _, line := range strings.Split(string(out), "\n") {
 		if k := strings.Index(line, "VERIF-RESULT "); k >= 0 {
@@ -607,6 +611,28 @@ func nativeReplay(p *PropCfg, pkg string, cases []replayCase) ([]nativeResult, s
 		return results, string(out), fmt.Errorf("native replay returned %d results for %d cases (%v)", len(results), len(cases), runErr)
 	}
 	return results, string(out), nil
+}
+
+// guardModFiles: the go command runs with -mod=mod (offline module cache) and
+// could rewrite go.mod/go.sum of the tree under test if a harness imported a
+// module that is only an indirect requirement. Checks never modify /repo: the
+// files are restored byte for byte if that happens.
+func guardModFiles() func() {
+	names := []string{"go.mod", "go.sum"}
+	orig := map[string][]byte{}
+	for _, n := range names {
+		if b, err := os.ReadFile(filepath.Join(repoDir, n)); err == nil {
+			orig[n] = b
+		}
+	}
+	return func() {
+		for n, b := range orig {
+			if cur, err := os.ReadFile(filepath.Join(repoDir, n)); err == nil && !bytes.Equal(cur, b) {
+				fmt.Fprintf(os.Stderr, "warning: %s was rewritten by the go command; restored\n", n)
+				os.WriteFile(filepath.Join(repoDir, n), b, 0o644)
+			}
+		}
+	}
 }
 
 func goCache() string {
